@@ -1,5 +1,5 @@
 # replay of a bounded stand-in violation (C09/C10): re-run native/c09_engine.py
 import sys
-print('C10 gaussian homodyne-angle {}: the same program re-run with a = -0.52, b = 0.44 gives [0.0, 1.0, 0.0, 1.0, 0.1903, 0.7992, -0.0589, 1.2859], the substituted program [0.0, 1.0, 0.0, 1.0, 0.0181, 1.3326, 0.1984, 0.7525]')
+print('bosonic gates: run([p1,p2]) gives [-0.0984, 1.0, -0.0673, 1.0, 0.5851, 1.0, 0.0587, 1.0] but the concatenated program gives [-0.0984, 1.0482, -0.0673, 1.2526, 0.5851, 0.915, 0.0587, 1.1551]')
 print('REPLAY-VIOLATION')
 sys.exit(1)
